@@ -836,3 +836,38 @@ Proof. vm_compute. reflexivity. Qed.
 Example ex_meta_qt : metabox_sr (be4 21 ++ name_meta ++ cenc (CLeaf name_hdlr [1;2;3;4;5]%N))
   = Ok (mkMeta true 0 0 [Leaf name_hdlr 13], 21%Z, false).
 Proof. vm_compute. reflexivity. Qed.
+
+(* ------------------------------------------------------------------ sgpd (round 4): the SR decoder behind the table sgeDecoders *)
+From V.c03 Require Import C03SgpdModel C03SgpdProofs.
+(* DecodeSgpd is the delegation pattern; DecodeSgpdSR = sgpd_prog (C03SgpdModel.v: header fields, `for i < entryCount`, the entry decoders
+   seig / roll / "rap " / unknown with their own length tests and `return e, sr.AccError()`; alst is NOT in the model, see there) is a local
+   reader program for EVERY entry count.  Hence, for every body on which the private run of the reader path accepts: the reader path returns
+   that value, and the SR decoder - the body sitting anywhere in the caller's buffer, any bytes before and after it - returns the same value,
+   stops exactly at the end of what the private run read, and has no accumulated error.  Third conjunct: in terms of the reader path alone. *)
+Theorem C03_sgpd_pair_agree :
+  local_xprog sgpd_prog /\
+  (forall body a s', run_xprog 0 sgpd_prog (rnew body) = Ok (a, s') -> rerr s' = false ->
+     forall pre post, (zlen (pre ++ body ++ post) < 2305843009213693952)%Z ->
+       xprog_body_r false true sgpd_prog body = Ok a /\
+       xprog_sr false true sgpd_prog (mkR (pre ++ body ++ post) (zlen pre) false)
+       = Ok (a, mkR (pre ++ body ++ post) (zlen pre + rpos s')%Z false)) /\
+  (forall body a, xprog_body_r false true sgpd_prog body = Ok a ->
+     forall pre post, (zlen (pre ++ body ++ post) < 2305843009213693952)%Z ->
+       exists p', xprog_sr false true sgpd_prog (mkR (pre ++ body ++ post) (zlen pre) false)
+                  = Ok (a, mkR (pre ++ body ++ post) p' false)).
+Proof. exact (conj sgpd_prog_local (conj sgpd_pair_agree sgpd_reader_accepts_sr_accepts)). Qed.
+Print Assumptions C03_sgpd_pair_agree.
+
+(* the loop combinator of sgpd_prog is n-fold iteration (a body that only counts reaches the continuation with the count increased by n) *)
+Theorem C03_sgpd_loop_counts : forall A n (st : N) (k : N -> xprog A), iter_N n (fun s k' => k' (s + 1)) st k = k (st + n).
+Proof. exact (@iter_N_counts). Qed.
+Print Assumptions C03_sgpd_loop_counts.
+
+(* the hypotheses are satisfiable: a version-1 seig sgpd (DefaultLength 20, one entry: 36 body bytes read, Size() = 8 + 36) and a version-1
+   roll sgpd with per-entry lengths (two entries) run to a value without accumulated error *)
+Example ex_sgpd_seig_ok : exists a s', run_xprog 0 sgpd_prog (rnew ex_sgpd_seig) = Ok (a, s') /\ rerr s' = false /\
+  rpos s' = 36%Z /\ length (sg_entries a) = 1%nat /\ sgpd_size a = 8 + lenN ex_sgpd_seig.
+Proof. exact ex_sgpd_seig_runs. Qed.
+Example ex_sgpd_roll_ok : exists a s', run_xprog 0 sgpd_prog (rnew ex_sgpd_roll) = Ok (a, s') /\ rerr s' = false /\
+  sg_entries a = [SgRoll (-1); SgRoll 5] /\ sg_lens a = [2; 2] /\ sgpd_size a = 8 + lenN ex_sgpd_roll.
+Proof. exact ex_sgpd_roll_runs. Qed.
